@@ -48,6 +48,9 @@ var (
 	flagMapRev   = flag.Bool("maprev", false, "iterate maps in reverse insertion order")
 	flagWorkers  = flag.Int("workers", 1, "max worker processes for harnesses that declare //vh:split=D")
 	flagPrefixes = flag.String("prefixes", "", "worker mode: JSON file with decision prefixes to explore")
+	flagTermTest = flag.Int("termtest", 0, "self-test of the term rewriting: N random rounds, then exit")
+	flagNoWires  = flag.Bool("nowires", false, "disable the bit-wiring normal form")
+	flagNoMerge  = flag.Bool("nomerge", false, "disable if-conversion of pure diamonds")
 )
 
 type harnessDecl struct {
@@ -73,6 +76,16 @@ func main() {
 		runtime.GOMAXPROCS(3)
 		os.Setenv("GOMAXPROCS", "4") // for the go list child
 	}
+	if *flagTermTest > 0 {
+		n, msg := runTermTest(*flagTermTest, *flagSeed)
+		if msg != "" {
+			fmt.Println("termtest FAILED:", msg)
+			os.Exit(1)
+		}
+		fmt.Printf("termtest ok: %d evaluations agree\n", n)
+		return
+	}
+	noWires = *flagNoWires
 	if *flagPkg == "" {
 		fmt.Fprintln(os.Stderr, "need -pkg")
 		os.Exit(2)
@@ -275,6 +288,7 @@ func main() {
 			tier:    *flagTier,
 		}
 		in.mapReverse = *flagMapRev
+		in.noMerge = *flagNoMerge
 		if *flagConcrete > 0 || *flagReplay != "" {
 			res := &harnessResult{Name: d.Name, Pkg: *flagPkg}
 			if *flagReplay != "" {
